@@ -1,5 +1,24 @@
 import Gaftools.Props.TieA7
+import Gaftools.Props.TieA22
 #print axioms Gaftools.TieA.phaseTags_gen
 #print axioms Gaftools.TieA.phaseMandatory_gen
 #print axioms Gaftools.TieA.parseFields_columns
 #print axioms Gaftools.TieA.parseFields_tags
+#print axioms Gaftools.TieA.dHas_enc
+#print axioms Gaftools.TieA.dGet_enc
+#print axioms Gaftools.TieA.tsvBody_gen
+#print axioms Gaftools.TieA.tsvBody_short
+#print axioms Gaftools.TieA.tsvFold_gen
+#print axioms Gaftools.TieA.tsvLoop_eq
+#print axioms Gaftools.TieA.tsvLoop_gen
+#print axioms Gaftools.TieA.tsvFold_sound
+#print axioms Gaftools.TieA.tsvLoop_sound
+#print axioms Gaftools.TieA.phaseFile_gen
+#print axioms Gaftools.TieA.short_duplicate_line
+#print axioms Gaftools.TieA.pyRange_down
+#print axioms Gaftools.TieA.pyIdx_cons2
+#print axioms Gaftools.TieA.foldlM_map_congr
+#print axioms Gaftools.TieA.revFold
+#print axioms Gaftools.TieA.reverseCigar_gen
+#print axioms Gaftools.TieA.reverseCigar_odd_example
+#print axioms Gaftools.TieA.isFileGzipped_iff
